@@ -144,10 +144,12 @@ Section Probing.
     {| e_prob := g_prob g; e_bo := g_bo g; e_ext := negb (g_bo g =? 0); e_left := g_pz g; e_rest := g_prob g |}.
   Definition uni_entry (g : gram) : entry :=
     {| e_prob := g_prob g; e_bo := g_bo g; e_ext := negb (g_bo g =? 0); e_left := false; e_rest := g_prob g |}.
-  (* zero-filled memory for <unk> when the file has none: prob +0.0, backoff +0.0 *)
-  Definition zero_unk : entry := {| e_prob := 0; e_bo := 0; e_ext := true; e_left := false; e_rest := 0 |}.
-  Definition final_unk (unk_prob : Z) : entry :=
-    {| e_prob := unk_prob; e_bo := 0; e_ext := true; e_left := (0 <=? unk_prob); e_rest := unk_prob |}.
+  (* <unk> when the file has none.  Since the repair of findings F16/F17 its default probability is in place before the
+     higher orders are read (so entries hallucinated on top of it use it) and the final SetUnknownMissing keeps the
+     "extends left" marker: only a non-negative default switches the marker on by itself (sign bit clear). *)
+  Definition initial_unk (unk_prob : Z) : entry := {| e_prob := unk_prob; e_bo := 0; e_ext := true; e_left := false; e_rest := unk_prob |}.
+  Definition final_unk (unk_prob : Z) (e : entry) : entry :=
+    {| e_prob := unk_prob; e_bo := 0; e_ext := true; e_left := orb (e_left e) (0 <=? unk_prob); e_rest := e_rest e |}.
   (* ApplyBuild calls SetRest for ids 0 .. counts[0]-1 only.  When the file has no <unk>, <unk> still takes id 0, so the
      last listed unigram (id = counts[0]) never gets its rest cost set: it stays 0.0 from the zero-filled memory and,
      being the maximum, is never raised.  (Rest costs are heuristics that cancel out once the context is revealed, so no
@@ -156,13 +158,12 @@ Section Probing.
     {| e_prob := e_prob e; e_bo := e_bo e; e_ext := e_ext e; e_left := e_left e; e_rest := 0 |}.
   Definition load_probing (saw_unk : bool) (unk_prob : Z) (unigrams : list gram) (higher : list (list gram)) : loaded :=
     let t0 := map (fun g => (g_key g, uni_entry g)) unigrams in
-    let t0 := if saw_unk then t0 else ([0%N], zero_unk) :: t0 in
+    let t0 := if saw_unk then t0 else ([0%N], initial_unk unk_prob) :: t0 in
     let t0 := if andb rest_max (negb saw_unk)
               then match rev unigrams with g :: _ => aupdate t0 (g_key g) zero_rest | [] => t0 end
               else t0 in
     match add_sections 2 higher t0 with
-    | Loaded t => Loaded (if saw_unk then t
-                          else aupdate t [0%N] (fun e => if rest_max then zero_rest (final_unk unk_prob) else final_unk unk_prob))
+    | Loaded t => Loaded (if saw_unk then t else aupdate t [0%N] (final_unk unk_prob))
     | err => err
     end.
 End Probing.
@@ -200,7 +201,7 @@ Section TrieLoad.
 
   Definition load_trie (saw_unk : bool) (unk_prob : Z) (unigrams : list gram) (higher : list (list gram)) : loaded :=
     let uni_t := map (fun g => (g_key g, mk_entry (g_prob g) (g_bo g))) unigrams in
-    let uni_t := if saw_unk then uni_t else ([0%N], {| e_prob := 0; e_bo := 0; e_ext := true; e_left := false; e_rest := 0 |}) :: uni_t in
+    let uni_t := if saw_unk then uni_t else ([0%N], {| e_prob := unk_prob; e_bo := 0; e_ext := true; e_left := false; e_rest := unk_prob |}) :: uni_t in
     let reals := uni_t ++ map (fun g => (g_key g, mk_entry (g_prob g) (g_bo g))) (concat higher) in
     let real_keys := map fst reals in
     let blanks := dedup (concat (map (fun K => blanks_of reals K) real_keys)) [] in
